@@ -8,6 +8,7 @@
 package simrt
 
 import (
+	"os"
 	"unsafe"
 	"cmp"
 	"fmt"
@@ -169,6 +170,11 @@ func ctx() (*Sim, *G) {
 		g.state = gRunning
 		s.byGoid[id] = g
 		s.stats.Foreign++
+		if os.Getenv("VERIF_DEBUG_FOREIGN") != "" {
+			buf := make([]byte, 4096)
+			n := runtime.Stack(buf, false)
+			fmt.Fprintf(os.Stderr, "FOREIGN goroutine adopted:\n%s\n", buf[:n])
+		}
 		s.hbStart(nil, g)
 	}
 	s.mu.Unlock()
